@@ -248,7 +248,7 @@ impl<'a> Gen<'a> {
     /// One glob component derived from a file name.
     pub fn component(&mut self, name: &str) -> String {
         let chars: Vec<char> = name.chars().collect();
-        let w = self.rng.weighted(&[40, 14, 8, 5, 5, 3, 9, 3, 4, 4, 3, 2]);
+        let w = self.rng.weighted(&[40, 14, 8, 5, 5, 3, 9, 3, 4, 4, 3, 2, 3]);
         match w {
             0 => esc(name),
             1 => "*".to_string(),
@@ -339,6 +339,29 @@ impl<'a> Gen<'a> {
             },
             10 => format!("{}$", esc(&chars[0].to_string())),
             11 => format!("{{{}}}", esc(name)),
+            // a case flag toggled in the middle of a component
+            12 if chars.len() >= 2 => {
+                let cut = self.rng.range(1, chars.len() - 1);
+                let flip = |cs: &[char]| -> String {
+                    cs.iter()
+                        .flat_map(|c| {
+                            if c.is_lowercase() {
+                                c.to_uppercase().collect::<Vec<char>>()
+                            }
+                            else {
+                                c.to_lowercase().collect::<Vec<char>>()
+                            }
+                        })
+                        .collect()
+                };
+                let (pre, post): (String, String) = (chars[..cut].iter().collect(), chars[cut..].iter().collect());
+                if self.rng.chance(1, 2) {
+                    format!("{}(?i){}", esc(&pre), esc(&flip(&chars[cut..])))
+                }
+                else {
+                    format!("(?i){}(?-i){}", esc(&flip(&chars[..cut])), esc(&post))
+                }
+            },
             _ => esc(name),
         }
     }
